@@ -57,46 +57,12 @@ def _run(node, tier, seed):
                 tot = sum(math.exp(R.score()) for _, _, R in prog.enumerate_ref(args)) if len(enum) <= 4096 else 1.0
                 if abs(tot - 1.0) > 1e-6:
                     raise HarnessError(f"reference probabilities of {node.name} sum to {tot}")
-            switchy = bool({"switch", "or_else", "mix"} & node.kinds())
             pool = {}
             for a2, _, _ in enum:
                 for p_, v_ in a2.items():
                     pool.setdefault(p_, v_)
             for asg, ret, R in enum:
-                k = (node.name, args_key(args), gfi.asg_key(asg))
-                if _has_clash(asg):
-                    # value and sub-map at one static address: not representable as one choice map
-                    ctx.note("skipped_unrepresentable_assignment")
-                    continue
-                ctx.ev(k, nontrivial=len(asg) > 0)
-                ic = "assess" + "".join(":" + f for f in sorted(feats & {"zero_length", "mask_concrete_false"}))
-                out = None
-                try:
-                    out = space.assess(args, asg)
-                except Exception as e:
-                    cls = ic + (":switch_minimal_sample" if switchy else "")
-                    ctx.fail(comp, "assess", cls, f"exception:{type(e).__name__}", dict(program=node.name, args=args_key(args), asg=gfi.asg_key(asg), msg=str(e)[:300]))
-                    if switchy:
-                        # Switch.assess evaluates every branch abstractly: retry with values supplied for
-                        # the addresses of the branches that do not execute (they must not contribute)
-                        padded = dict(asg)
-                        for p_, v_ in pool.items():
-                            if p_ not in padded and not _has_clash({**padded, p_: v_}):
-                                padded[p_] = v_
-                        try:
-                            out = space.assess(args, padded)
-                            ctx.ev(k + ("padded",), nontrivial=True)
-                            ctx.note("padded_assess")
-                        except Exception as e2:
-                            ctx.note("padded_assess_raised")
-                            out = None
-                if out is None:
-                    continue
-                s = float(np.asarray(out["score"]))
-                if not close(s, R.score()):
-                    ctx.fail(comp, "assess", ic, "score", dict(program=node.name, args=args_key(args), asg=gfi.asg_key(asg), impl=s, ref=R.score()))
-                if not cmp_ret(norm_ret(out["retval"]), ret):
-                    ctx.fail(comp, "assess", ic, "retval", dict(program=node.name, args=args_key(args), asg=gfi.asg_key(asg), impl=repr(norm_ret(out["retval"])), ref=repr(ret)))
+                assess_one(ctx, space, node, comp, args, asg, ret, R, pool, feats)
             ctx.sample(dict(program=node.name, args=args_key(args), assignments=len(enum), first=gfi.asg_key(enum[0][0]), ref_score=enum[0][2].score()))
         # trace scores along the simulate tree
         try:
@@ -110,6 +76,46 @@ def _run(node, tier, seed):
             gfi.check_trace_against_ref(_C(ctx, comp), node, alph[0], asg, p.result["score"], norm_ret(p.result["retval"]), "sim_path", "simulate")
 
     return run
+
+
+def assess_one(ctx, space, node, comp, args, asg, ret, R, pool, feats, nontrivial=None):
+    """one complete assignment through the real assess; if the library needs values for addresses
+    that do not execute (inactive switch branches, masked-off calls) that is reported and the call is
+    retried with such values supplied - they must not contribute."""
+    k = (node.name, args_key(args), gfi.asg_key(asg))
+    if _has_clash(asg):
+        # value and sub-map at one static address: not representable as one choice map
+        ctx.note("skipped_unrepresentable_assignment")
+        return
+    switchy = bool({"switch", "or_else", "mix"} & node.kinds())
+    masky = "mask" in node.kinds()
+    ctx.ev(k, nontrivial=(len(asg) > 0) if nontrivial is None else nontrivial)
+    ic = "assess" + "".join(":" + f for f in sorted(feats & {"zero_length", "mask_concrete_false"}))
+    out = None
+    try:
+        out = space.assess(args, asg)
+    except Exception as e:
+        cls = ic + (":switch_minimal_sample" if switchy else (":masked_off_address_absent" if masky else ""))
+        ctx.fail(comp, "assess", cls, f"exception:{type(e).__name__}", dict(program=node.name, args=args_key(args), asg=gfi.asg_key(asg), msg=str(e)[:300]))
+        if switchy or masky:
+            padded = dict(asg)
+            for p_, v_ in pool.items():
+                if p_ not in padded and not _has_clash({**padded, p_: v_}):
+                    padded[p_] = v_
+            try:
+                out = space.assess(args, padded)
+                ctx.ev(k + ("padded",), nontrivial=True)
+                ctx.note("padded_assess")
+            except Exception:
+                ctx.note("padded_assess_raised")
+                out = None
+    if out is None:
+        return
+    s = float(np.asarray(out["score"]))
+    if not close(s, R.score()):
+        ctx.fail(comp, "assess", ic, "score", dict(program=node.name, args=args_key(args), asg=gfi.asg_key(asg), impl=s, ref=R.score()))
+    if not cmp_ret(norm_ret(out["retval"]), ret):
+        ctx.fail(comp, "assess", ic, "retval", dict(program=node.name, args=args_key(args), asg=gfi.asg_key(asg), impl=repr(norm_ret(out["retval"])), ref=repr(ret)))
 
 
 def _has_clash(asg):
